@@ -103,6 +103,8 @@ pub struct Tape {
     pub alloc_errors: Vec<String>,
     /// when false, drops are not logged (harness-side drops of returned values)
     pub logging: bool,
+    /// ids of key/value objects dropped by the harness itself (they were returned to the caller)
+    pub returned: Vec<String>,
 }
 
 thread_local! {
@@ -212,6 +214,7 @@ pub fn pred_of() -> (bool, bool) {
 pub fn drop_key(id: u64) {
     let p = with(|t| {
         if !t.logging {
+            t.returned.push(format!("k{}", id));
             return false;
         }
         let c = t.dc;
@@ -228,6 +231,8 @@ pub fn drop_val(id: u64) {
     with(|t| {
         if t.logging {
             t.events.push(format!("dv{}", id));
+        } else {
+            t.returned.push(format!("v{}", id));
         }
     });
 }
@@ -238,6 +243,14 @@ pub fn take_events() -> String {
         e.sort();
         e.join(",")
     })
+}
+
+pub fn peek_events() -> Vec<String> {
+    with(|t| t.events.clone())
+}
+
+pub fn take_returned() -> Vec<String> {
+    with(|t| std::mem::take(&mut t.returned))
 }
 
 pub fn counters() -> String {
